@@ -60,6 +60,8 @@ type phaseOut struct {
 	auditBad   []string
 	planned    int
 	wall       float64
+	// procRuns: the runs each worker process executed, in order (a run's history inside its process)
+	procRuns [][]int
 }
 
 func workerArgs(ph Phase, verifDir string) []string {
@@ -103,6 +105,7 @@ func runPhase(o *DriveOpts, ph Phase, known []*KnownFinding, deadline time.Time)
 	var firstErr error
 	var wg sync.WaitGroup
 	procs := make([]*proc, w)
+	out.procRuns = make([][]int, w)
 	for i := 0; i < w; i++ {
 		pr, err := startProc(ph.Bin, workerArgs(ph, o.VerifDir), workerEnv(ph))
 		if err != nil {
@@ -116,7 +119,7 @@ func runPhase(o *DriveOpts, ph Phase, known []*KnownFinding, deadline time.Time)
 	}
 	for i := 0; i < w; i++ {
 		wg.Add(1)
-		go func(pr *proc) {
+		go func(pr *proc, pi int) {
 			defer wg.Done()
 			for {
 				mu.Lock()
@@ -126,6 +129,7 @@ func runPhase(o *DriveOpts, ph Phase, known []*KnownFinding, deadline time.Time)
 				}
 				run := next
 				next++
+				out.procRuns[pi] = append(out.procRuns[pi], run)
 				mu.Unlock()
 				job := &Job{ID: run, Prop: ph.Key, Tier: o.Tier, Seed: o.Seed, Run: run, Record: run < 3}
 				res, died, stderr, err := pr.do(job)
@@ -173,7 +177,7 @@ func runPhase(o *DriveOpts, ph Phase, known []*KnownFinding, deadline time.Time)
 				}
 				mu.Unlock()
 			}
-		}(procs[i])
+		}(procs[i], i)
 	}
 	wg.Wait()
 	if firstErr != nil {
@@ -371,6 +375,90 @@ type ReplayFile struct {
 	Events     []string   `json:"schedule_and_fault_trace"`
 	LogHash    uint64     `json:"log_hash"`
 	ShrinkRuns int        `json:"shrink_executions"`
+	// Prefix: runs (of the same seed, workload and tier) executed before this one in the same process. Empty for a
+	// violation that a run produces in a process of its own; set when it needs the state that earlier runs left in
+	// the process (objects that the runs of a worker share and that no operation may change).
+	Prefix []int `json:"runs_before_in_the_same_process,omitempty"`
+}
+
+// historyOf returns the runs that the worker of run executed before it.
+func (out *phaseOut) historyOf(run int) []int {
+	for _, rs := range out.procRuns {
+		for i, r := range rs {
+			if r == run {
+				return append([]int{}, rs[:i]...)
+			}
+		}
+	}
+	return nil
+}
+
+// withHistory executes prefix and then run in a new worker process and returns the result of run.
+func withHistory(o *DriveOpts, ph Phase, prefix []int, run int, record bool) (*Result, error) {
+	pr, err := startProc(ph.Bin, workerArgs(ph, o.VerifDir), workerEnv(ph))
+	if err != nil {
+		return nil, err
+	}
+	defer pr.kill()
+	for i, r := range prefix {
+		if _, died, _, err := pr.do(&Job{ID: i, Prop: ph.Key, Tier: o.Tier, Seed: o.Seed, Run: r}); err != nil || died {
+			return nil, fmt.Errorf("run %d of the history failed (died=%v err=%v)", r, died, err)
+		}
+	}
+	res, died, stderr, err := pr.do(&Job{ID: len(prefix), Prop: ph.Key, Tier: o.Tier, Seed: o.Seed, Run: run, Record: record})
+	if err != nil {
+		return nil, err
+	}
+	if died {
+		or, cl, ex := classifyDeath(stderr)
+		return &Result{Run: run, Violation: &Violation{Property: o.Public, Oracle: or, Class: cl, Msg: ex}}, nil
+	}
+	return res, nil
+}
+
+// reproduceWithHistory: a violation that does not show when its run is executed in a process of its own is
+// re-executed after the runs that preceded it in its worker; when it shows then, the history is cut down (halves,
+// then single runs, within the wall budget) while the violation stays.
+func reproduceWithHistory(o *DriveOpts, ph Phase, out *phaseOut, run int, key string, wall time.Duration) ([]int, *Result) {
+	t0 := time.Now()
+	hist := out.historyOf(run)
+	if hist == nil {
+		hist = []int{} // first run of its worker: a new process is its whole history
+	}
+	res, err := withHistory(o, ph, hist, run, true)
+	if err != nil || keyOf(res) != key {
+		return nil, nil
+	}
+	try := func(h []int) bool {
+		if time.Since(t0) > wall {
+			return false
+		}
+		r, err := withHistory(o, ph, h, run, true)
+		if err == nil && keyOf(r) == key {
+			res = r
+			return true
+		}
+		return false
+	}
+	for chunk := len(hist) / 2; chunk >= 1 && time.Since(t0) < wall; {
+		removed := false
+		for at := 0; at+chunk <= len(hist) && time.Since(t0) < wall; {
+			c := append(append([]int{}, hist[:at]...), hist[at+chunk:]...)
+			if try(c) {
+				hist = c
+				removed = true
+			} else {
+				at += chunk
+			}
+		}
+		if !removed || chunk > len(hist) {
+			chunk /= 2
+		}
+		if chunk > len(hist) {
+			chunk = len(hist)
+		}
+	}
+	return hist, res
 }
 
 func repoState() (string, bool) {
@@ -500,6 +588,8 @@ func Drive(o *DriveOpts) int {
 				if v, err := strconv.Atoi(os.Getenv("VERIF_SHRINK_SECONDS")); err == nil && v > 0 {
 					budget = time.Duration(v) * time.Second // tooling knob (tools/run_seeded.py); the registered commands do not set it
 				}
+				first := c
+				var prefix []int
 				min := ev.shrink(c.run, c.trace, c.key, 400, budget)
 				final, err := ev.eval(c.run, min, true)
 				if err != nil || keyOf(final) != c.key {
@@ -519,7 +609,18 @@ func Drive(o *DriveOpts) int {
 						}
 					}
 					if err != nil || keyOf(final) != c.key {
-						// not repeatable in a process of its own: not a result of this machinery
+						// not repeatable in a process of its own: with the runs that preceded it in its worker?
+						tried := []cand{{first.run, first.trace, c.key, first.viol, nil}}
+						tried = append(tried, c.alts...)
+						for _, a := range tried {
+							if h, r := reproduceWithHistory(o, ph, out, a.run, c.key, budget); r != nil {
+								fmt.Printf("note: the violation %s of run %d does not show when the run is executed in a process of its own; it shows after %d earlier run(s) of its worker %v (state shared by the runs of a process was changed)\n", c.key, a.run, len(h), h)
+								c.run, c.trace, c.viol, prefix, final, min = a.run, a.trace, a.viol, h, r, a.trace
+								break
+							}
+						}
+					}
+					if prefix == nil && (err != nil || keyOf(final) != c.key) {
 						fmt.Printf("INFRA: the violation %s of run %d did not reproduce when the run was re-executed alone\n", c.key, c.run)
 						unreproduced++
 						nViol--
@@ -528,7 +629,7 @@ func Drive(o *DriveOpts) int {
 				}
 				rf := &ReplayFile{Property: o.Public, Workload: ph.Key, Race: ph.Race, Tier: o.Tier, VerifSeed: o.Seed, Run: c.run,
 					RunSeed: RunSeedFor(o.Seed, ph.Key, c.run), RepoHead: head, RepoDirty: dirty, Violation: c.viol, Trace: min,
-					OrigDraws: len(c.trace), ShrinkRuns: ev.execs}
+					OrigDraws: len(c.trace), ShrinkRuns: ev.execs, Prefix: prefix}
 				if final != nil {
 					if final.Violation != nil {
 						rf.Violation = final.Violation
@@ -720,6 +821,13 @@ func Replay(path string, bins map[bool]string, verifDir string) int {
 		return 2
 	}
 	defer ev.pr.kill()
+	for i, r := range rf.Prefix {
+		// the runs that preceded the failing one in its process
+		if _, died, _, err := ev.pr.do(&Job{ID: -1 - i, Prop: ph.Key, Tier: o.Tier, Seed: o.Seed, Run: r}); err != nil || died {
+			fmt.Printf("INFRA: run %d of the recorded history failed (died=%v err=%v)\n", r, died, err)
+			return 2
+		}
+	}
 	res, err := ev.eval(rf.Run, rf.Trace, true)
 	if err != nil {
 		fmt.Println("INFRA:", err)
